@@ -571,6 +571,8 @@ def run(ctx):
     from fastparquet import ParquetFile
 
     def one(case, path, orig):
+        if os.environ.get("VERIF_TRACE"):
+            json.dump(case, open(os.environ["VERIF_TRACE"], "w"))
         st, fails = examine(case, path, pq, ctx)
         if st == "unopenable":
             ctx.count("unopenable", case.get("rel", "written") + ": " + fails[0][:60])
